@@ -67,7 +67,11 @@ enum Mode {
     Inline,
     EvalStdin,
     OutFile,
+    /// `-o` onto a file that already holds a (longer) outputs object from an earlier run
+    OutFileExisting,
 }
+
+const PREVIOUS_OUTPUT: &str = "{\"previous\":\"an earlier, much longer outputs object: 0123456789 0123456789 0123456789 0123456789 0123456789 0123456789 0123456789 0123456789 0123456789 0123456789 0123456789 0123456789 0123456789 0123456789 0123456789 0123456789 0123456789 0123456789 0123456789 0123456789 0123456789 0123456789 0123456789 0123456789 0123456789 0123456789 0123456789\",\"b\":[1,2,3],\"c\":{\"k\":null}}\n";
 
 /// Model: merged inputs or an input error.
 fn model_inputs(set: &InputSet, mode: Mode) -> Result<IndexMap<String, J>, ()> {
@@ -209,7 +213,7 @@ fn check(ctx: &Ctx, script: &[usize], set: &InputSet, mode: Mode) {
     let mut file = None;
     let mut out_file = None;
     match mode {
-        Mode::File | Mode::OutFile => {
+        Mode::File | Mode::OutFile | Mode::OutFileExisting => {
             let f = scratch_file("script");
             let _ = std::fs::write(&f, &source);
             args.push(f.clone());
@@ -221,9 +225,13 @@ fn check(ctx: &Ctx, script: &[usize], set: &InputSet, mode: Mode) {
             stdin = Some(source.as_bytes().to_vec());
         }
     }
-    if mode == Mode::OutFile {
+    let is_out = mode == Mode::OutFile || mode == Mode::OutFileExisting;
+    if is_out {
         let o = scratch_file("out");
         let _ = std::fs::remove_file(&o);
+        if mode == Mode::OutFileExisting {
+            let _ = std::fs::write(&o, PREVIOUS_OUTPUT);
+        }
         args.push("-o".into());
         args.push(o.clone());
         out_file = Some(o);
@@ -257,7 +265,7 @@ fn check(ctx: &Ctx, script: &[usize], set: &InputSet, mode: Mode) {
             viol("exit-status", "exit 0 (every statement succeeds)".into(), r.describe());
             return;
         }
-        let (text, objects) = if mode == Mode::OutFile {
+        let (text, objects) = if is_out {
             if !stdout_objects.is_empty() {
                 viol("outputs-on-stdout-despite--o", "no JSON object on stdout".into(), r.describe());
             }
@@ -303,8 +311,15 @@ fn check(ctx: &Ctx, script: &[usize], set: &InputSet, mode: Mode) {
         if r.stdout.trim().is_empty() && r.stderr.trim().is_empty() {
             viol("silent-failure", "the error is reported".into(), r.describe());
         }
-        if written.is_some() {
-            viol("output-file-written-despite-failure", "no --output file".into(), format!("{:?}", written));
+        match (&written, mode) {
+            (Some(w), Mode::OutFileExisting) => {
+                // the earlier file may stay (or be emptied), but no new outputs object may appear in it
+                if w != PREVIOUS_OUTPUT && !json_object_lines(w).is_empty() {
+                    viol("output-file-written-despite-failure", "the --output file keeps its earlier content or holds no object".into(), truncate(w, 200));
+                }
+            }
+            (Some(w), _) => viol("output-file-written-despite-failure", "no --output file".into(), format!("{:?}", w)),
+            _ => {}
         }
     }
 }
@@ -318,6 +333,7 @@ pub fn run(ctx: &Ctx, replay: Option<&J>) -> i32 {
             Some("Inline") => Mode::Inline,
             Some("EvalStdin") => Mode::EvalStdin,
             Some("OutFile") => Mode::OutFile,
+            Some("OutFileExisting") => Mode::OutFileExisting,
             _ => Mode::File,
         };
         check(ctx, &script, &set, mode);
@@ -331,7 +347,7 @@ pub fn run(ctx: &Ctx, replay: Option<&J>) -> i32 {
     let max_len = ctx.tier.pick(3, 4);
     let idx: Vec<usize> = (0..ALPHABET.len()).collect();
     let scripts: Vec<Vec<usize>> = words(&idx, max_len);
-    let modes = [Mode::File, Mode::Inline, Mode::EvalStdin, Mode::OutFile];
+    let modes = [Mode::File, Mode::Inline, Mode::EvalStdin, Mode::OutFile, Mode::OutFileExisting];
     let mut jobs: Vec<(usize, usize, Mode)> = vec![];
     for (si, s) in scripts.iter().enumerate() {
         for (ii, set) in sets.iter().enumerate() {
@@ -370,7 +386,7 @@ pub fn run(ctx: &Ctx, replay: Option<&J>) -> i32 {
     finish(
         ctx,
         "model_checking",
-        "model traces = every script of length <= 3/4 over an 12-statement alphabet (bind, output-with-binding, output of bound/unbound name, re-output, evaluation failure, non-portable function output, parse error, comment, #name / inputs.name reads, value_n reads) x 22 input sets (0..3 --input flags and/or stdin; objects with overlapping keys, arrays, scalars, explicit value_1 key, empty stdin, invalid JSON) x 4 invocation modes (file, inline, -e stdin, -o file); every trace is executed by the real binary and compared with the model (exit status biconditional, exactly one outputs object with the model's keys in declaration order and values, no object / no file on failure, diagnostics present); distinct = distinct (script, inputs, mode)",
+        "model traces = every script of length <= 3/4 over an 12-statement alphabet (bind, output-with-binding, output of bound/unbound name, re-output, evaluation failure, non-portable function output, parse error, comment, #name / inputs.name reads, value_n reads) x 22 input sets (0..3 --input flags and/or stdin; objects with overlapping keys, arrays, scalars, explicit value_1 key, empty stdin, invalid JSON) x 5 invocation modes (file, inline, -e stdin, -o onto a missing file, -o onto a file holding a longer earlier outputs object); every trace is executed by the real binary and compared with the model (exit status biconditional, exactly one outputs object with the model's keys in declaration order and values, no object / no file on failure, diagnostics present); distinct = distinct (script, inputs, mode)",
         true,
         Some((scripts.len() as u64 * sets.len() as u64, n, n)),
     )
